@@ -10,26 +10,44 @@
 (*   ledger events   Ledger{nk,dec,irr,interp,c1,c2,nat,lin,unit,lookup}, Interp{np,dims,mono,val,first,ends,lin},  *)
 (*                   AreaL{nk,dec,exact,add}                                                                  *)
 (*     - 3..40 knots, spacing decades -4..4; every residual inside TolLedger, no wrong piece                   *)
+(*   SESSIONS (harness/c19_cls.c; in-process histories K7 and the input classes K2 K3 K4 K5 K8):              *)
+(*     SReset{srow,scol,orow,ocol}   a new coefficient table / interpolate() output (possibly already sized)   *)
+(*     SFit{nk,prev,rows,cols,hd[],xe,line,...residuals}   one fit INTO THE SESSION'S TABLE: the table the      *)
+(*        call found (prev rows) must be the table the previous call left (history is bound to the trace);     *)
+(*        after the call it has exactly nk-1 rows of 5 columns WHATEVER it held before, and every clause of    *)
+(*        the property is judged again.  Tolerances are FUNCTIONS of the logged input: the spacing decades     *)
+(*        hd[] give Span (decades between the smallest and the largest spacing of the knot set: the          *)
+(*        amplification of the natural spline), hd[] and xe give Rep (decades between max|x| and the smallest  *)
+(*        spacing: what one ulp of an abscissa means in units of a spacing).                                   *)
+(*     SInt{np,prow,pcol,rows,cols,...}   interpolate() INTO THE SESSION'S OUTPUT (prow x pcol before)           *)
+(*     SArea{exact,add,addb}              trapezoid area: exact, additive at vertices and BETWEEN vertices      *)
+(*     Sent{piece,last,found,err}         a query at which the spline takes the value of the library's        *)
+(*                                        MISSING code (99999999) in a piece that is not the last one          *)
+(*   OUTSIDE the statement (deviations are EXTRA-FINDINGs, never verdicts):                                    *)
+(*     XArea{hd,xe,one,two,samp,desc}     curve_area(xy, np > 0), descending abscissae                         *)
+(*     Extrap{lok,rok,fin}                evaluation left / right of the knot range continues the end piece    *)
 EXTENDS Spline, TraceBase
 CONSTANTS TolVal, TolArea, TolLedger
-VARIABLES l, xs, sc
-tvars == <<l, xs, sc, x, y>>                \* x, y: the model's own case variables, unused while validating traces
+VARIABLES l, xs, sc,
+          ses                               \* session state: [srow, scol, orow, ocol] = shapes the session's objects have NOW, cur = class of the last fit
+tvars == <<l, xs, sc, ses, x, y>>           \* x, y: the model's own case variables, unused while validating traces
 Ev == Tr[l]
 Step == l' = l + 1 /\ UNCHANGED <<x, y>>
 IsEv(name) == l <= Len(Tr) /\ Ev.e = name
-TInit == l = 1 /\ xs = <<0, 1, 2>> /\ sc = 0 /\ x = [i \in 0..n |-> i] /\ y = [i \in 0..n |-> 0]
+NoSes == [srow |-> 0, scol |-> 0, orow |-> 0, ocol |-> 0, nk |-> 0, span |-> 0, rep |-> 0, line |-> 0]
+TInit == l = 1 /\ xs = <<0, 1, 2>> /\ sc = 0 /\ ses = NoSes /\ x = [i \in 0..n |-> i] /\ y = [i \in 0..n |-> 0]
 
 Increasing(s) == \A i \in 1..(Len(s) - 1) : s[i] < s[i+1]
 TKnots == /\ IsEv("Knots") /\ Step /\ Len(Ev.xs) = Ev.nk /\ Ev.nk >= 3 /\ Increasing(Ev.xs)
           /\ Ev.rows = Ev.nk - 1                                   \* one row of coefficients per piece
-          /\ xs' = Ev.xs /\ sc' = Ev.E
-TPiece == /\ IsEv("Piece") /\ Step /\ Ev.E = sc /\ UNCHANGED <<xs, sc>>
+          /\ xs' = Ev.xs /\ sc' = Ev.E /\ UNCHANGED ses
+TPiece == /\ IsEv("Piece") /\ Step /\ Ev.E = sc /\ UNCHANGED <<xs, sc, ses>>
           /\ \E k \in 1..Len(Ev.chosen) : Ev.chosen[k] \in PieceOfSeq(xs, Ev.t2)
-TVal == /\ IsEv("Val") /\ Step /\ Ev.E = sc /\ UNCHANGED <<xs, sc>>
+TVal == /\ IsEv("Val") /\ Step /\ Ev.E = sc /\ UNCHANGED <<xs, sc, ses>>
         /\ Ev.err \in 0..TolVal
-TArea == /\ IsEv("Area") /\ Step /\ Ev.E = sc /\ UNCHANGED <<xs, sc>>
+TArea == /\ IsEv("Area") /\ Step /\ Ev.E = sc /\ UNCHANGED <<xs, sc, ses>>
          /\ Ev.err \in 0..TolArea /\ Ev.add \in 0..TolArea
-TLedger == /\ IsEv("Ledger") /\ Step /\ UNCHANGED <<xs, sc>>
+TLedger == /\ IsEv("Ledger") /\ Step /\ UNCHANGED <<xs, sc, ses>>
            /\ Ev.nk \in 3..40 /\ Ev.dec \in (-4)..4
            /\ Ev.lookup = 0
            /\ Ev.interp \in 0..TolLedger /\ Ev.c1 \in 0..TolLedger /\ Ev.c2 \in 0..TolLedger
@@ -37,12 +55,78 @@ TLedger == /\ IsEv("Ledger") /\ Step /\ UNCHANGED <<xs, sc>>
            /\ Ev.ord \in 0..TolLedger              \* the value at an abscissa does not depend on the other queries of the call or their order
 \* interpolate(xy, np, out): np rows (x, spline(x)), abscissae strictly increasing from the first to the last knot, every value the value
 \* the two-call form returns at that abscissa, the first data point reproduced, straight lines reproduced
-TInterp == /\ IsEv("Interp") /\ Step /\ UNCHANGED <<xs, sc>>
+TInterp == /\ IsEv("Interp") /\ Step /\ UNCHANGED <<xs, sc, ses>>
            /\ Ev.np >= 2 /\ Ev.dims = 1 /\ Ev.mono = 1
            /\ Ev.val \in 0..TolLedger /\ Ev.first \in 0..TolLedger /\ Ev.ends \in 0..TolLedger /\ Ev.lin \in 0..TolLedger
-TAreaL == /\ IsEv("AreaL") /\ Step /\ UNCHANGED <<xs, sc>>
+TAreaL == /\ IsEv("AreaL") /\ Step /\ UNCHANGED <<xs, sc, ses>>
           /\ Ev.exact \in 0..TolArea /\ Ev.add \in 0..TolArea
-TNext == TKnots \/ TPiece \/ TVal \/ TArea \/ TLedger \/ TInterp \/ TAreaL
+
+\* ---------------------------------------------------------------- sessions
+\* tolerance functions of the LOGGED INPUT (1e-12 units).  hd[i] = floor(log10 h_i) in -4..4, xe = ceil(log10 max|x|)
+RECURSIVE P10(_)
+P10(k) == IF k <= 0 THEN 1 ELSE 10 * P10(k - 1)
+MaxOf(s) == CHOOSE v \in {s[i] : i \in 1..Len(s)} : \A i \in 1..Len(s) : s[i] <= v
+MinOf(s) == CHOOSE v \in {s[i] : i \in 1..Len(s)} : \A i \in 1..Len(s) : s[i] >= v
+SpanOf(hd) == MaxOf(hd) - MinOf(hd)                  \* 0..8: hmax/hmin < 10^(Span+1)
+RepOf(hd, xe) == xe - MinOf(hd)                      \* max|x| / hmin <= 10^Rep
+Max2(a, b) == IF a > b THEN a ELSE b
+\* amplification: a natural spline through knots whose spacings differ by 10^(Span+1) has polynomial terms up to that factor larger than
+\* the ordinates; a double carries 1.1e-16 of the largest term.  Span <= 2 is every class the ledger had before (uniform, irregular inside
+\* a decade, across two decades): the tolerance there is TolLedger, unchanged.  (calibrated on 72,000 fits of the unchanged tree:
+\* worst observed / TolAmp = 0.0081 at Span 7, 0.0009 at Span 6)
+TolAmp(span) == IF span <= 2 THEN TolLedger ELSE Max2(TolLedger, P10(span))            \* = 10^(Span+1) / 10; P10 stays below 2^31 (Span <= 8)
+\* representability: one ulp of an abscissa is 1.1e-16 * 10^Rep spacings; the value moves by at most the same fraction of an ordinate
+\* difference (x 10 for the slope): 1e-12 units -> 10^(Rep+1) / 1000
+TolRep(rep, span) == TolAmp(span) + (IF rep >= 2 THEN P10(IF rep > 11 THEN 9 ELSE rep - 2) ELSE 0)    \* = 10^(Rep+1) / 1000, capped at 1e9 (32-bit integers)
+\* unit change by a factor that is NOT a power of two (1000): every knot moves by up to an ulp, i.e. 10^Rep * 1.1e-16 spacings, amplified;
+\* beyond 10^11 the comparison says nothing (the exact rescaling by 1024, unit2, carries the clause there)
+UnitJudged(rep, span) == rep + span + 1 <= 11
+TolUnit(rep, span) == IF UnitJudged(rep, span) THEN Max2(TolLedger, P10(rep + span - 2)) ELSE 2000000000    \* = 10^(Rep+Span+1) / 1000
+
+TSReset == /\ IsEv("Reset") /\ Step /\ UNCHANGED <<xs, sc>>
+           /\ ses' = [NoSes EXCEPT !.srow = Ev.srow, !.scol = Ev.scol, !.orow = Ev.orow, !.ocol = Ev.ocol]
+\* history class of a fit, from what the table held before (0 rows = fresh)
+HistS(prev, nk) == IF prev = 0 THEN "fresh" ELSE IF prev > nk - 1 THEN "shrink" ELSE IF prev < nk - 1 THEN "grow" ELSE "same"
+TSFit == /\ IsEv("SFit") /\ Step /\ UNCHANGED <<xs, sc>>
+         /\ Ev.nk \in 3..40 /\ Len(Ev.hd) = Ev.nk - 1 /\ \A i \in 1..Len(Ev.hd) : Ev.hd[i] \in (-4)..4        \* inside the quantifier
+         /\ Ev.prev = ses.srow                                      \* the table this call found is the table the last call left
+         /\ HistS(Ev.prev, Ev.nk) \in {"fresh", "shrink", "grow", "same"}
+         /\ Ev.rows = Ev.nk - 1 /\ Ev.cols = 5                      \* one row per piece, whatever the table held before
+         /\ Ev.lookup = 0 /\ Ev.ulpw = 0                            \* every returned value is the value of a piece that holds the abscissa
+         /\ LET sp == SpanOf(Ev.hd)  rp == RepOf(Ev.hd, Ev.xe) IN
+            /\ Ev.interp \in 0..TolAmp(sp)                          \* passes through every point
+            /\ Ev.c1 \in 0..TolAmp(sp) /\ Ev.c2 \in 0..TolAmp(sp)   \* C1, C2 at interior knots
+            /\ Ev.nat \in 0..TolAmp(sp)                             \* zero second derivative at both ends
+            /\ Ev.ord \in 0..TolLedger                              \* independent of the other queries of the call
+            /\ Ev.unit2 \in 0..TolAmp(sp)                           \* units of x (exact rescaling)
+            /\ (UnitJudged(rp, sp) => Ev.unit \in 0..TolUnit(rp, sp))    \* units of x (factor 1000)
+            /\ (Ev.line = 1 => Ev.lin \in 0..TolAmp(sp))            \* straight lines reproduced
+            /\ Ev.ulpv \in 0..TolRep(rp, sp)                        \* continuity one ulp beside every knot
+            /\ ses' = [ses EXCEPT !.srow = Ev.rows, !.scol = Ev.cols, !.nk = Ev.nk, !.span = sp, !.rep = rp, !.line = Ev.line]
+TSInt == /\ IsEv("SInt") /\ Step /\ UNCHANGED <<xs, sc>>
+         /\ Ev.nk = ses.nk /\ Ev.np >= 2
+         /\ Ev.prow = ses.orow /\ Ev.pcol = ses.ocol                \* the output this call found is the one the last call left
+         /\ Ev.rows = Ev.np /\ Ev.cols = 2 /\ Ev.mono = 1
+         /\ Ev.val \in 0..TolAmp(ses.span) /\ Ev.first \in 0..TolAmp(ses.span)
+         /\ Ev.ends \in 0..TolRep(ses.rep, ses.span)
+         /\ (ses.line = 1 => Ev.lin \in 0..TolAmp(ses.span))
+         /\ ses' = [ses EXCEPT !.orow = Ev.rows, !.ocol = Ev.cols]
+TSArea == /\ IsEv("SArea") /\ Step /\ UNCHANGED <<xs, sc, ses>>
+          /\ Ev.exact \in 0..TolArea /\ Ev.add \in 0..TolArea /\ Ev.addb \in 0..TolArea
+\* the value of MISSING is an ordinary ordinate value for a curve: the piece that holds the abscissa decides
+TSent == /\ IsEv("Sent") /\ Step /\ UNCHANGED <<xs, sc, ses>>
+         /\ Ev.piece < Ev.last
+         /\ (Ev.found = 1 => Ev.err \in 0..TolVal)
+\* ---- outside the statement
+TXArea == /\ IsEv("XArea") /\ Step /\ UNCHANGED <<xs, sc, ses>>
+          /\ Ev.one = 0                                             \* one sample point: no trapezoid
+          /\ Ev.two \in 0..TolRep(RepOf(Ev.hd, Ev.xe), SpanOf(Ev.hd))   \* two sample points: the chord trapezoid
+          /\ Ev.samp \in 0..TolArea                                 \* np sample points: trapezoid sum of interpolate(xy, np)
+          /\ Ev.desc \in 0..TolArea                                 \* descending abscissae: the signed integral changes sign
+TExtrap == /\ IsEv("Extrap") /\ Step /\ UNCHANGED <<xs, sc, ses>>
+           /\ Ev.fin = 1 /\ Ev.lok = 1 /\ Ev.rok = 1
+TNext == \/ TKnots \/ TPiece \/ TVal \/ TArea \/ TLedger \/ TInterp \/ TAreaL
+         \/ TSReset \/ TSFit \/ TSInt \/ TSArea \/ TSent \/ TXArea \/ TExtrap
 TSpec == TInit /\ [][TNext]_tvars
 TraceAccepted == Accepted
 Diag == ShowCursor(l)
